@@ -37,15 +37,29 @@ variants() {
   esac
 }
 
+# VERIF_REPO (default /repo) lets the monitors be run against a scratch copy of juniper (used when
+# validating the monitors against seeded breakage); registered commands never set it.
+MODFLAG=""
+if [ -n "${VERIF_REPO:-}" ] && [ "$VERIF_REPO" != /repo ]; then
+  mkdir -p .build/alt
+  ALT=".build/alt/$(echo "$VERIF_REPO" | tr -c 'A-Za-z0-9\n' '_')"
+  sed "s#=> /repo#=> $VERIF_REPO#" go.mod >"$ALT.mod"
+  cp go.sum "$ALT.sum"
+  MODFLAG="-modfile=$ALT.mod"
+  BINTAG=".$(basename "$ALT")"
+else
+  BINTAG=""
+fi
+
 build() { # build <prop> <race|norace>
   local prop=$1 kind=$2
   local pkg="./mon/$(echo "$prop" | tr 'A-Z' 'a-z')"
-  local out=".build/bin/mon$prop.$kind"
+  local out=".build/bin/mon$prop$BINTAG.$kind"
   mkdir -p .build/bin
   if [ "$kind" = race ]; then
-    go build -tags verif -race -o "$out" "$pkg"
+    go build $MODFLAG -tags verif -race -o "$out" "$pkg"
   else
-    go build -tags verif -o "$out" "$pkg"
+    go build $MODFLAG -tags verif -o "$out" "$pkg"
   fi
 }
 
@@ -122,7 +136,7 @@ for v in $VARS; do
       export VERIF_RACE_LOG="$PWD/$RUN/race.$i"
       export GORACE="halt_on_error=0 log_path=$PWD/$RUN/race.$i"
     fi
-    exec timeout -s QUIT -k 20 "$LIMIT" ".build/bin/mon$PROP.$kind" >"$RUN/out.$i" 2>"$RUN/err.$i"
+    exec timeout -s QUIT -k 20 "$LIMIT" ".build/bin/mon$PROP$BINTAG.$kind" >"$RUN/out.$i" 2>"$RUN/err.$i"
   )
   rc=$?
   cat "$RUN/out.$i"
@@ -146,7 +160,7 @@ done
 
 final=0
 if [ -n "$parts" ]; then
-  bin=".build/bin/mon$PROP.norace"; [ -x "$bin" ] || bin=".build/bin/mon$PROP.race"
+  bin=".build/bin/mon$PROP$BINTAG.norace"; [ $need_norace = 1 ] || bin=".build/bin/mon$PROP$BINTAG.race"
   "$bin" --merge $parts
   final=$?
 else
